@@ -305,6 +305,9 @@ func c14(r *core.Run) {
 	}
 	var history []injRec
 	steps := 2 + src.Intn(7)
+	if r.Tier == "thorough" && src.Bool(1, 3) {
+		steps = 8 + src.Intn(25)
+	}
 	copies := 0
 	for s := 0; s < steps; s++ {
 		src.Begin("step")
